@@ -254,6 +254,9 @@ func (r *Recorder) Emit(ev string, a Args, res string, te pt.TableEngine, t *pt.
 		}
 	}
 	r.enc.Encode(l)
+	if len(ev) > 5 && (ev[:5] == "call:" || ev[:4] == "ret:") {
+		r.w.Flush() // a dying engine process must not take the announcement of the call that killed it with it
+	}
 	r.lines++
 	atomic.AddInt64(&r.events, 1)
 }
